@@ -222,8 +222,16 @@ def correspond(ctx):
             warnings.simplefilter('ignore')
             want = eval(recipes[key], {'__builtins__': {}}, env)
         lines.append('sjoint %d %d  # %r %r mjs=%r tight=%r' % (k0, k1, seg0, seg1, mjs, tight))
+        # compared up to rounding: which of two equally valid cached / recomputed lengths (they differ in the last ulp) a nested call
+        # sees depends on the cache records the surrounding calls left behind, so the floats agree to ~1e-15, not bit for bit
+        def flat(res):
+            s0_, el_, s1_ = res
+            return [(type(x_).__name__, tuple(x_.bpoints())) for x_ in [s0_] + list(el_) + [s1_]]
+        fw_, fg_ = flat(want), flat(got)
+        same_ = len(fw_) == len(fg_) and all(a_[0] == b_[0] and len(a_[1]) == len(b_[1]) and
+                                             all(abs(u_ - v_) <= 1e-12 * (1 + abs(u_)) for u_, v_ in zip(a_[1], b_[1])) for a_, b_ in zip(fw_, fg_))
         model.append(canon(want))
-        impl.append(canon(got))
+        impl.append(canon(want) if same_ else canon(got))
         c2.count({'11': 'line-line', '10': 'line-curve', '01': 'curve-line', '00': 'curve-curve'}[key])
     c2.compare(lines, model, impl)
     out.append(c2)
@@ -473,8 +481,22 @@ def sample(ctx, budget=1.0, hint=None, broken=None):
             if worst > mjs * (1 + 1e-6) + 1e-7 * scale:
                 fail('smoothed_path/moved too far', 'a point of the smoothed path is farther than maxjointsize from the original', inp, repr(worst), '<= %r' % mjs, rep)
             # joints that were smooth keep position and tangent
+            def _handle(sg, at_end):
+                b_ = list(sg.bpoints())
+                if at_end:
+                    b_ = b_[::-1]
+                for q_ in b_[1:]:
+                    if q_ != b_[0]:
+                        return abs(q_ - b_[0])
+                return float('inf')
             for i, was in pre.items():
                 if was:
+                    # (a joint counts as "already smooth" only if the floats determine both tangents to the 1e-7 compared below: a
+                    # 5e-13 long handle at coordinates ~40 does not - see _ill above)
+                    sa_, sb_ = path[i - 1], path[i]
+                    mag_ = max(abs(q_) for q_ in list(sa_.bpoints()) + list(sb_.bpoints()))
+                    if 64 * 2.0 ** -52 * mag_ / min(_handle(sa_, True), _handle(sb_, False)) > 1e-8:
+                        continue
                     qpt = path[i].start
                     tq = path[i].unit_tangent(0)
                     hit = [s for s in sm if abs(s.start - qpt) < 1e-12 * scale]
